@@ -21,7 +21,7 @@ RULE = ("state = fingerprint of all mutable state a call could leave behind (eve
         "lists, input dictionaries); alphabet = the public operations of C01-C12, C16, C17, each closed over the shared pool "
         "objects (defaults left to default where the API has them); exploration: every operation from the pristine state "
         "(fresh forked process), every two-step history over the whole alphabet, every three-step history over the operations "
-        "that receive shared mutable arguments (thorough: every three-step history over the whole alphabet and every four-step history over the shared-argument operations); each step's result is compared with the same operation in isolation and the "
+        "that receive shared mutable arguments (thorough: every three-step history over the whole alphabet and every four-step history made of two shared-argument operations followed by two of the twelve operations listed in D4_TAIL_OPS); each step's result is compared with the same operation in isolation and the "
         "pool part of the fingerprint with the pristine one (a change of library-internal state is recorded as a new state, not alarmed on); results that the library returns as containers are scribbled on by the harness after each step, and the pool holds twin inputs (same graph, other kinds; same values, permuted source names) so that aliasing or under-keyed caches change a later answer; states = distinct fingerprints seen, transitions = operation executions judged; "
         "non-trivial = history of length >= 2")
 ASSUMPTIONS = ["the fingerprint covers all reachable Python-level mutable state of the library and the pool; C-level state of numpy/scipy is trusted",
@@ -31,7 +31,7 @@ EXPLANATION = ("explicit-state search over real calls: if every operation return
 
 
 def budget_s(tier):
-    return 400 if tier == "quick" else 1800
+    return 400 if tier == "quick" else 3600
 
 
 # ------------------------------------------------------------------ canonical forms
@@ -370,6 +370,12 @@ SHARED_ARG_OPS = ["ssm_zero_capacitance", "ssm_zero_inductance", "short_circuit_
                   "load_network", "to_complex_degree", "undictify_circuit", "undictify_all", "dictify_all", "serialize_roundtrip_json", "deserialize_circuit_text"]
 
 
+# four-step histories: any two shared-argument operations followed by any two of these (the ones that take the shared lists,
+# dictionaries, arrays or descriptions, or that answer with an exception / an infinity)
+D4_TAIL_OPS = ["zero_v_keep_net2", "passive_keep_net2", "remove_short_keep", "zero_v_keep", "passive_keep", "nodal_ssm_shared_dicts", "transform_list",
+               "transient_solution", "load_network", "ssm_zero_inductance", "short_circuit_current_ideal_port", "undictify_all"]
+
+
 # ------------------------------------------------------------------ running histories in forked children
 def run_history_in_child(ops):
     """fork; in the child run the operations, after each record (result digest, changed fingerprint keys)"""
@@ -466,8 +472,8 @@ def run_shard(desc):
         for c in names:
             judge_history([desc[1], desc[2], c], res)
     else:
-        for c in SHARED_ARG_OPS:
-            for d_ in SHARED_ARG_OPS:
+        for c in D4_TAIL_OPS:
+            for d_ in D4_TAIL_OPS:
                 judge_history([desc[1], desc[2], c, d_], res)
     return res
 
